@@ -168,8 +168,8 @@ class StackBench(leaf.Bench):
                 await host.line(ctx, LS_K, T["T2P5US"] + 60)
                 await host.line(ctx, LS_J, T["T2P5US"] + 60)
             await host.line(ctx, LS_SE0, 600)
-        else:
-            await host.idle(ctx, T["T2P5MS"] + 400)
+        if not (hs_host and chirp is not None and pairs >= 3):
+            await host.idle(ctx, T["T2P5MS"] + 400)    # a full-speed host (or one that stopped chirping) just keeps SE0
         for _ in range(400):                       # let the control translator finish its register writes
             await host.cycle(ctx)
         fc = host.phy.regs[4]
@@ -179,6 +179,9 @@ class StackBench(leaf.Bench):
         self.spd = "hs" if host.hs else "fs"
         self.trace += self._wire()
         self.in_reset = False
+        if self.susp:
+            was = "susp_" + was
+        self.susp = False
         return {"e": "reset", "from": was, "hs_host": bool(hs_host and pairs >= 3), "chirp": chirp["n"] if chirp else 0,
                 "chirp_nonzero": chirp["nonzero"] if chirp else 0, "chirp_stp": chirp["stp_data"] if chirp else 0, "fc": fc}
 
@@ -192,6 +195,7 @@ class StackBench(leaf.Bench):
         self.host = host
         self._log_seen = 0
         self.in_reset = False
+        self.susp = False
         self.gaps = []
         self.rx_p, self.tx_p = sc.get("rx_p", 1.0), sc.get("tx_p", 1.0)
         self.rx_budget = 0 if sc.get("rx_manual") else None
@@ -305,7 +309,7 @@ class StackBench(leaf.Bench):
                     await host.line(ctx, LS_J, TM["T200US"] + 300)
                 else:
                     await host.idle(ctx, TM["T3MS"] + 300)
-                self.suspended_from = "hs" if host.hs else "fs"
+                self.susp = True
                 self._flush({"e": "bus", "ev": "suspend", "fc": host.phy.regs[4]})
             elif k == "resume":
                 TM = self.times
@@ -315,6 +319,7 @@ class StackBench(leaf.Bench):
                 else:
                     await host.line(ctx, LS_SE0, 20)
                     await host.line(ctx, LS_J, 100)
+                self.susp = False
                 self._flush({"e": "bus", "ev": "resume", "fc": host.phy.regs[4]})
             elif k == "vbus":
                 host.vbus = 0x0C if op[1] else 0x00
@@ -516,6 +521,73 @@ def sc_backpressure(rng, maxpkt):
     return ops
 
 
+GET_CFG = lambda a=None: ("ctl", a, req(0, 0, 1, 8, 0, 0, 1), ())
+SET_CFG = lambda v=1: ("ctl", None, req(0, 0, 0, 9, v, 0, 0), ())
+
+
+def configure(rng, with_data=False):
+    a = rng.randint(1, 127)
+    ops = [SET_ADDR(a), SET_CFG(1), GET_CFG()]
+    return a, ops
+
+
+def probes(old, rng):
+    """After a bus reset: the device answers at address 0 with configuration 0, and is deaf at its old address."""
+    ops = [GET_CFG(), GET_CFG(old), ("quiet_in", old, 4), ("out", old, 0, [rng.randrange(256)], True),
+           ("ctl", None, req(0, 0, 1, 6, 0x0100, 0, 18), ())]
+    rng.shuffle(ops)
+    return ops
+
+
+def kept(a):
+    """After suspend / resume (no reset): address and configuration are kept."""
+    return [GET_CFG(), ("ctl", 0 if a else 5, req(0, 0, 1, 8, 0, 0, 1), ())]
+
+
+def sc_bus(rng, family):
+    """Bus events at line-state level followed by transactions.  family:
+       fs    resets of an active full-speed device (FS host, HS host, 2 chirp pairs only), then of the HS device it became
+       susp  suspend -> resume, suspend -> reset while suspended, from full speed and from high speed   [seeded/C08-3]
+       plug  VBUS loss / return and soft disconnect / connect, each followed by the host's reset, from FS and from HS"""
+    ops = []
+    if family == "fs":
+        a, o = configure(rng); ops += o
+        ops += [("out", None, 0, [1, 2, 3], True), ("tx", [[7, False], [8, True]], True), ("in", None, True), ("in", None, True)]
+        ops += [("reset", False)] + probes(a, rng)
+        a, o = configure(rng); ops += o
+        ops += [("reset", True, 2)] + probes(a, rng)             # host stops after two K-J pairs: stay at full speed
+        a, o = configure(rng); ops += o
+        ops += [("reset", True)] + probes(a, rng)                # high speed from here on
+        a, o = configure(rng); ops += o
+        ops += [("reset", True, 4)] + probes(a, rng)             # reset of an active HS device, HS again
+        a, o = configure(rng); ops += o
+        ops += [("reset", False)] + probes(a, rng)               # reset of an active HS device by a full-speed host
+        a, o = configure(rng); ops += o
+    elif family == "susp":
+        a, o = configure(rng); ops += o
+        ops += [("suspend",), ("resume",)] + kept(a)
+        ops += [("suspend",), ("reset", False)] + probes(a, rng)          # reset while suspended from FS, FS host
+        a, o = configure(rng); ops += o
+        ops += [("suspend",), ("reset", True)] + probes(a, rng)           # reset while suspended from FS, HS host
+        a, o = configure(rng); ops += o                                   # (high speed now)
+        ops += [("suspend",), ("resume",)] + kept(a)                      # HS suspend / resume: back at high speed
+        ops += [("suspend",), ("reset", True)] + probes(a, rng)           # reset while suspended from HS
+        a, o = configure(rng); ops += o
+        ops += [("suspend",), ("reset", False)] + probes(a, rng)
+        a, o = configure(rng); ops += o
+    else:
+        a, o = configure(rng); ops += o
+        ops += [("vbus", 0), ("vbus", 1), ("reset", True)] + probes(a, rng)
+        a, o = configure(rng); ops += o                                   # high speed
+        ops += [("vbus", 0), ("vbus", 1), ("reset", False)] + probes(a, rng)
+        a, o = configure(rng); ops += o
+        ops += [("connect", 0), ("connect", 1), ("reset", True)] + probes(a, rng)
+        a, o = configure(rng); ops += o
+        ops += [("connect", 0), ("connect", 1), ("reset", False)] + probes(a, rng)
+        a, o = configure(rng); ops += o
+    return ops
+
+
 # ---- classification / validation -----------------------------------------------------------------------------------
 def classify(trace, matched, status, meta):
     return {"clause": status, "pattern": meta.get("phy", "?") + "/" + meta.get("family", "?")}
@@ -617,10 +689,10 @@ def bench(phy, maxpkt, scaled=False):
     return _BENCH[(phy, maxpkt, scaled)]
 
 
-def run_family(rep, phy, maxpkt, family, ops, seedtag, **kw):
+def run_family(rep, phy, maxpkt, family, ops, seedtag, scaled=False, **kw):
     rng = random.Random("%s-%s-%s-%s" % (rep.seed, phy, family, seedtag))
     sc = dict({"rng": rng, "ops": ops, "gap": 0.0, "stall": 0.0, "rx_p": 1.0, "tx_p": 1.0}, **kw)
-    b = bench(phy, maxpkt)
+    b = bench(phy, maxpkt, scaled)
     tr = b.run(sc)
     rep.extra["usb2stack_cycles"] = rep.extra.get("usb2stack_cycles", 0) + b.host.cycle_no
     return tr, {"engine": ENGINE, "phy": phy, "maxpkt": maxpkt, "family": family, "n": seedtag}
@@ -696,6 +768,33 @@ def extra_C57(rep):
         validate(rep, items, mp, "usb2stack(ULPI) ")
 
 
+def _bus_families(rep, families, tag):
+    quick = rep.tier == "quick"
+    common(rep)
+    rep.assume("usb2stack bus events: the reset sequencer's ms-range constants are scaled at elaboration (200 us / 1 / 2 / 2.5 / 3 ms = "
+               "600 / 1500 / 2000 / 2500 / 3000 clocks; 2.5 us and 5 us keep their real 150 / 300 clocks) -- the timing rules themselves "
+               "are C19's leaf check; the host resets the bus after every (re-)attachment and sends no bulk traffic to the device "
+               "after a bus reset (toggle semantics of a reset are outside C08/C57)")
+    items = []
+    for i in range(1 if quick else 4):
+        for fam in families:
+            rng = random.Random("%s-%s-%s-%d" % (rep.seed, tag, fam, i))
+            items.append(run_family(rep, "ulpi", 8, "bus_" + fam, sc_bus(rng, fam), i, scaled=True, drain=False,
+                                    gap=(0.0, 0.3)[i % 2], stall=(0.0, 0.3)[i % 2]))
+    validate(rep, items, 8, "usb2stack(ULPI, scaled reset sequencer) ")
+
+
+def extra_C08(rep):
+    """A bus reset -- of an active or a suspended device, at full or high speed -- returns the stack to address 0 / configuration 0;
+    suspend / resume does not."""
+    _bus_families(rep, ("susp", "fs"), "C08")
+
+
+def extra_C19(rep):
+    """Reset / chirp handshake / suspend / resume / VBUS / soft disconnect through PHY line-state reports, in composition."""
+    _bus_families(rep, ("fs", "plug", "susp"), "C19")
+
+
 # Part (B) -- FS line -> GatewarePHY -> USBDevice -- is specified (the `line` branches of Usb2Stack.tla, LineCode.tla) but has no
 # bench yet (hosts/fsline_host.py does not exist): no EXTRA for C25 is registered, so nothing is claimed for it.
-EXTRA = {"C20": extra_C20, "C22": extra_C22, "C23": extra_C23, "C57": extra_C57}
+EXTRA = {"C08": extra_C08, "C19": extra_C19, "C20": extra_C20, "C22": extra_C22, "C23": extra_C23, "C57": extra_C57}
